@@ -28,7 +28,7 @@ POLICIES = ["uniform", "uniform", "sticky", "main-slow", "reader-slow", "reader-
 
 
 @st.composite
-def mc_case(draw, sub):
+def mc_case(draw, sub, tier="quick"):
     sc = draw(routing.routing_case(sub, draw(st.sampled_from(["filters", "filters", "pairs", "demux"]))))
     # blow the input up to several chunks
     n = draw(st.sampled_from([24, 40, 64, 100, 160] if sub != "enum" else [6, 8, 10]))
@@ -61,6 +61,9 @@ def mc_case(draw, sub):
     sc["buffer"] = max(2 * recsize + 16 + (recsize if sc["paired"] and sc["out"].get("interleaved_in") else 0),
                        total // chunks + 1)
     sc["workers"] = draw(st.sampled_from([2, 2, 3, 4, 5] if sub != "enum" else [2]))
+    if sub == "enum" and tier == "thorough":
+        sc["preemptions"] = 2
+        sc["max_runs"] = 2500
     if sub == "sim":
         sc["choices"] = draw(st.lists(st.integers(0, 7), min_size=40, max_size=300))
         sc["policy"] = draw(st.sampled_from(POLICIES))
@@ -188,7 +191,7 @@ def check_enum(sc, ctx):
 SUBS = {
     "sim": Sub(strategy=lambda tier: mc_case("sim"), check=check_sim),
     "real": Sub(strategy=lambda tier: mc_case("real"), check=check_real),
-    "enum": Sub(strategy=lambda tier: mc_case("enum"), check=check_enum),
+    "enum": Sub(strategy=lambda tier: mc_case("enum", tier), check=check_enum),
 }
 
 
@@ -199,4 +202,4 @@ def plan(tier):
                [{"sub": "enum", "kind": "hyp", "examples": 4} for _ in range(2)]
     return [{"sub": "sim", "kind": "hyp", "examples": 6000} for _ in range(10)] + \
            [{"sub": "real", "kind": "hyp", "examples": 1500} for _ in range(3)] + \
-           [{"sub": "enum", "kind": "hyp", "examples": 60} for _ in range(3)]
+           [{"sub": "enum", "kind": "hyp", "examples": 10} for _ in range(6)]
